@@ -32,7 +32,7 @@ META = {
                       'counting lemma count_len_lt (elementary), sumsq scaling and closed form for np.ones (lemmas of the sequence theory)'],
              assumptions=['floats are mathematical reals: every "<= rho" is proved up to rounding',
                           'partial correctness: a run that raises releases nothing (AIM with rounds < 0.9*#one-way marginals overspends internally and then raises before returning; sqrt of a negative remaining budget is modelled as abort there)',
-                          'IEEE division-by-zero sites assumed away: aim.py line 95 (remaining == 0 gives sigma = inf, eps = 0), adaptive_grid.py lines 283/327 (rho == 0)']),
+                          'IEEE division-by-zero sites assumed away: aim.py `1/(2*0.9*remaining)` (remaining == 0 gives sigma = inf, eps = 0), adaptive_grid.py `0.5/rho_step_1`, `0.5/rho_step_3` (rho == 0)']),
  'C06': dict(level='proof', technique=DED + ': information-flow (taint) obligations on the same symbolic execution as C05: branch conditions, loop bounds, filters, noise scales/sizes, estimate() arguments and return values are public',
              ded='every if/while condition, loop bound, comprehension filter, scale/size of a noise draw, candidate count of a selection, argument of FactoredInference.estimate and returned value of each mechanism function is public; '
                  'private values reach only release operands and selection scores; Dataset.records is public exactly under replace adjacency.',
